@@ -27,12 +27,18 @@ where
     let mut y = Vec::with_capacity(totpoints);
     let window = make_window::<T>(totpoints, windowfunc);
     let mut sum = T::zero();
+    // Compensated (Kahan) summation, a plain running sum of this many terms
+    // loses several digits in single precision.
+    let mut compensation = T::zero();
     for (x, w) in window.iter().enumerate().take(totpoints) {
         let val = *w
             * sinc(
                 (T::coerce(x) - T::coerce(totpoints / 2)) * T::coerce(f_cutoff) / T::coerce(factor),
             );
-        sum += val;
+        let term = val - compensation;
+        let new_sum = sum + term;
+        compensation = (new_sum - sum) - term;
+        sum = new_sum;
         y.push(val);
     }
     sum /= T::coerce(factor);
